@@ -65,6 +65,10 @@ def spaces(tier, prop):
               cond("currentdate", False, ":value", "ge", v1=("s", "date"), v2=("l", ["2024-01-01"])),
               cond("currentdate", True, ":is", "", v1=("s", "weekday"), v2=("l", ["0", "6"]))]
     acts = []
+    cond_vals = vals
+    # in an action tuple a string that starts with ':' *is* a tag by the API's own convention (("fileinto", ":copy", "x")):
+    # such a value cannot be expressed there, like a value starting with a quote (outside the claim)
+    vals = [v for v in vals if v != "@tag"]
     for tg in ([], [":copy"], [":create"], [":copy", ":create"], [":flags"], [":copy", ":flags"]):
         if prop == "C19" and ":flags" in tg:
             continue          # C19 claims value-less tags only
